@@ -98,3 +98,51 @@ package table
 //@   ensures result == nil && !old(has(table.rowmap, bytes(primaryKey))) ==> !(exists j :: 0 <= j && j < old(len(table.rows)) && old(table.rows[j].Ty) == 3 && old(bytes(table.rows[j].Primary)) == bytes(primaryKey))
 //@   ensures result == nil && !old(has(table.rowmap, bytes(primaryKey))) ==> len(table.rows) == old(len(table.rows)) + 1 && table.rows[old(len(table.rows))].Ty == 2 && table.rows[old(len(table.rows))].Data == newdata && table.rows[old(len(table.rows))].old == ret0(findRow).Data
 //@   ensures result == nil && old(has(table.rowmap, bytes(primaryKey))) ==> len(table.rows) == old(len(table.rows)) && old(table.rowmap[bytes(primaryKey)]).Data == newdata
+
+// ---- C10: translating a pending row into data and index records ------------------------------------------
+// idxVal(data, name): the value of index `name` for a payload (RowMeta.SetPayload + Get, abstract);
+// getDataKey / getIndexKey are deterministic key builders.
+//@ smt (declare-fun idxVal (Iface Bytes) Bytes)
+//@ trusted func (*Table).index
+//@   frame ~Table.opt, ~Option.Index, ~Option.Join, ~Row.Primary, ~Row.Data, ~Row.old, ~Row.Ty, ~mem:string, ~mem:uint8, ~mem:*github.com/33cn/chain33/types.KeyValue, ~github.com/33cn/chain33/types.KeyValue.Key, ~github.com/33cn/chain33/types.KeyValue.Value
+//@   ensures result1 == nil ==> bytes(result0) == idxVal(row.Data, indexName)
+//@ trusted func (*Table).getIndexKey
+//@   frame nothing
+//@   opt functional=yes
+//@ trusted func (*Table).getDataKey
+//@   frame nothing
+//@   opt functional=yes
+//@ pure func (*Row).Encode
+
+// adding a row writes its data record (unless it is a join table) and exactly one index record per
+// configured index, keyed by (index name, index value of the row's data, primary key), valued by the primary key
+//@ func (*Table).addRow [C10]
+//@   opt safety=assumed overflow=assumed
+//@   requires row != nil && table.opt != nil
+//@   assert@call getIndexKey: arg1 == index && bytes(arg2) == idxVal(row.Data, index) && arg3 == row.Primary
+//@   assert@call getDataKey: arg1 == row.Primary
+//@   ensures result1 == nil ==> len(result0) == (table.opt.Join ? 0 : 1) + len(table.opt.Index)
+//@   loop 0 invariant rangeindex >= -1 && rangeindex < len(table.opt.Index) && len(kvs) == (table.opt.Join ? 0 : 1) + rangeindex + 1 && table.opt == old(table.opt) && table.opt.Index == old(table.opt.Index) && table.opt.Join == old(table.opt.Join)
+
+// deleting a row deletes its data record and, for every configured index, the index record under the index
+// value of THIS row's data: the same keys addRow wrote for that data
+//@ func (*Table).delRow [C10]
+//@   opt safety=assumed overflow=assumed
+//@   requires row != nil && table.opt != nil
+//@   assert@call getIndexKey: arg1 == index && bytes(arg2) == idxVal(row.Data, index) && arg3 == row.Primary
+//@   assert@call getDataKey: arg1 == row.Primary
+//@   assert@call builtin.append: arg1[0] != nil && isnil(arg1[0].Value)
+//@   ensures result1 == nil ==> len(result0) == (table.opt.Join ? 0 : 1) + len(table.opt.Index)
+//@   loop 0 invariant rangeindex >= -1 && rangeindex < len(table.opt.Index) && len(kvs) == (table.opt.Join ? 0 : 1) + rangeindex + 1 && table.opt == old(table.opt) && table.opt.Index == old(table.opt.Index) && table.opt.Join == old(table.opt.Join)
+
+// what Save does with a pending row is decided by its type alone
+//@ pure func (*Table).updateRow
+//@ func (*Table).saveRow [C10]
+//@   opt safety=assumed
+//@   requires row != nil && table.opt != nil
+//@   ensures old(row.Ty) == 3 ==> called(delRow) && !called(addRow) && !called(updateRow)
+//@   ensures old(row.Ty) == 1 ==> called(addRow) && !called(delRow) && !called(updateRow)
+//@   ensures old(row.Ty) == 2 ==> called(updateRow) && !called(addRow) && !called(delRow)
+//@   ensures old(row.Ty) == 0 ==> result1 == nil && len(result0) == 0 && !called(addRow) && !called(delRow) && !called(updateRow)
+//@   assert@call addRow: arg1 == row
+//@   assert@call delRow: arg1 == row
